@@ -886,3 +886,89 @@ Proof.
     as (p2 & Ht2 & [Hc|Hc]); [left | right; exact Hc].
   unfold all_periods_closed. cbn [List.concat]. rewrite trace_run_app, Ht1, Ht2. congruence.
 Qed.
+
+(** * What is observed is the predicate's own value
+
+    The label of a report that is not the end-of-period judgement is the value
+    of the auditor's predicate in that very round, evaluated after the
+    auditor's own assignments of the round, and only when the predicate's
+    dependencies are fresh.  Together with the period grammar above (which
+    follows the reported labels through the table from its start state) this
+    is the plain meaning: a period's verdicts are those of its modality over
+    the predicate's values during that period. *)
+Lemma check_expect_label m s1 q0 q1 o2 ok tbl p a l code :
+  check_expect m s1 q0 = (q1, o2, ok) -> m_expect m = Some (tbl, p) -> In (OReport a l code) o2 ->
+  a = m_name m /\ has_deps s1 p = true /\
+  ((l = "err"%string /\ truthy (eval (env_of s1) p) = None) \/
+   (exists b, truthy (eval (env_of s1) p) = Some b /\ l = lbl b)).
+Proof.
+  unfold check_expect. intros H Hm. rewrite Hm in H.
+  destruct (has_deps s1 p) eqn:Hd; cbn [negb] in H; [|inversion H; subst; intros []].
+  destruct (truthy (eval (env_of s1) p)) as [b|] eqn:Hb.
+  - destruct (fsm_report tbl q0 (lbl b)) as [[q' c]|]; inversion H; subst; [|intros []].
+    intros [E|[]]. inversion E; subst. split; [reflexivity|]. split; [reflexivity|]. right. exists b. split; reflexivity.
+  - inversion H; subst. intros [E|[]]. inversion E; subst. split; [reflexivity|]. split; [reflexivity|]. left. split; reflexivity.
+Qed.
+
+Lemma is_obs_not_report o a l code : forallb is_obs o = true -> ~ In (OReport a l code) o.
+Proof.
+  intros H Hin. rewrite forallb_forall in H. specialize (H _ Hin). discriminate.
+Qed.
+
+Lemma period_end_label m closing q1 q2 o3 ok a l code :
+  period_end m closing q1 = (q2, o3, ok) -> In (OReport a l code) o3 -> l = "end"%string.
+Proof.
+  unfold period_end. destruct closing; [|intros H; inversion H; subst; intros []].
+  destruct (m_expect m) as [[tbl p]|]; [|intros H; inversion H; subst; intros [E|[]]; discriminate].
+  destruct (fsm_report tbl q1 "end") as [[q' c]|]; intros H; inversion H; subst; [|intros []].
+  intros [E|[E|[]]]; [inversion E; reflexivity | discriminate].
+Qed.
+
+Theorem visit_reports_the_predicate_value c final s ts m s' o stt tbl p a l code :
+  visit c final s ts m = (s', o, stt) -> m_expect m = Some (tbl, p) ->
+  In (OReport a l code) o -> l <> "end"%string ->
+  a = m_name m /\
+  exists s0 s1 o1, do_assigns c s0 ts (m_assigns m) = (s1, o1, Running) /\ has_deps s1 p = true /\
+    ((l = "err"%string /\ truthy (eval (env_of s1) p) = None) \/
+     (exists b, truthy (eval (env_of s1) p) = Some b /\ l = lbl b)).
+Proof.
+  unfold visit. intros H Hm Hin Hl.
+  destruct (get_ms (m_name m) (s_ms s)) as [ms|] eqn:Hg; [|inversion H; subst; destruct Hin].
+  destruct (wanted final s m) as [[w|]|]; try (inversion H; subst; destruct Hin; fail).
+  set (starting := w && negb (ms_auditing ms)) in *.
+  set (closing := negb w && ms_auditing ms) in *.
+  set (q0 := if starting then match m_expect m with Some (tbl0, _) => f_start tbl0 | None => ms_fsm ms end else ms_fsm ms) in *.
+  set (auditing := ms_auditing ms || starting) in *.
+  destruct (starting && negb (start_ok m)).
+  { inversion H; subst. destruct Hin as [E|[]]; discriminate. }
+  set (o_start := if starting then [OStart (m_name m)] else []) in *.
+  assert (Hos : ~ In (OReport a l code) o_start).
+  { unfold o_start. destruct starting; [intros [E|[]]; discriminate | intros []]. }
+  destruct (negb auditing).
+  { inversion H; subst. contradiction. }
+  destruct (do_assigns c (set_ms s (m_name m) auditing q0) ts (m_assigns m)) as [[s1 o1] st1] eqn:Ea.
+  assert (Ho1 : ~ In (OReport a l code) o1).
+  { assert (Hg0 : get_ms (m_name m) (s_ms (set_ms s (m_name m) auditing q0)) <> None).
+    { rewrite (get_ms_set_ms_same s (m_name m) auditing q0 ms Hg). discriminate. }
+    destruct (get_ms (m_name m) (s_ms (set_ms s (m_name m) auditing q0))) as [ms0|] eqn:Hg1; [|contradiction].
+    destruct (do_assigns_spec _ _ _ _ _ _ _ _ _ Ea Hg1) as (Hobs & _). apply is_obs_not_report, Hobs. }
+  destruct st1; try (inversion H; subst; apply in_app_or in Hin; destruct Hin; contradiction).
+  destruct (check_expect m s1 q0) as [[q1 o2] ok2] eqn:Ec.
+  destruct ok2; cbn [negb] in H.
+  - destruct (period_end m closing q1) as [[q2 o3] ok3] eqn:Ep.
+    assert (Hin' : In (OReport a l code) (o_start ++ o1 ++ o2 ++ o3)).
+    { destruct ok3; cbn [negb] in H; inversion H; subst; exact Hin. }
+    apply in_app_or in Hin'. destruct Hin' as [Hin'|Hin']; [contradiction|].
+    apply in_app_or in Hin'. destruct Hin' as [Hin'|Hin']; [contradiction|].
+    apply in_app_or in Hin'. destruct Hin' as [Hin'|Hin'].
+    + destruct (check_expect_label _ _ _ _ _ _ _ _ _ _ _ Ec Hm Hin') as (Ha & Hd & Hv).
+      split; [exact Ha|]. exists (set_ms s (m_name m) auditing q0), s1, o1. split; [exact Ea|]. split; assumption.
+    + exfalso. apply Hl. eapply period_end_label; eassumption.
+  - assert (Hin2 : In (OReport a l code) (o_start ++ o1 ++ o2)).
+    { inversion H; subst; exact Hin. }
+    clear Hin. rename Hin2 into Hin.
+    apply in_app_or in Hin. destruct Hin as [Hin|Hin]; [contradiction|].
+    apply in_app_or in Hin. destruct Hin as [Hin|Hin]; [contradiction|].
+    destruct (check_expect_label _ _ _ _ _ _ _ _ _ _ _ Ec Hm Hin) as (Ha & Hd & Hv).
+    split; [exact Ha|]. exists (set_ms s (m_name m) auditing q0), s1, o1. split; [exact Ea|]. split; assumption.
+Qed.
